@@ -88,6 +88,14 @@ func (f *Frame) callFn(st *State, r *Term, callee *ssa.Function, bindings []Val,
 		return model(f, st, r, target, args, pos)
 	}
 	ct := eng.contractFor(target)
+	if ct != nil && ct.Pure && !ct.Inline && f.top().fn != target {
+		// preconditions are still checked by the ordinary contract path below when there are any
+		if len(ct.Requires) == 0 {
+			if v, ok := f.pureCall(st, r, target, tmap, ct, args, pos); ok {
+				return v
+			}
+		}
+	}
 	if ct != nil && !ct.Inline && !(f.depth == 0 && false) {
 		return f.contractCall(st, r, target, tmap, ct, bindings, args, pos)
 	}
@@ -141,12 +149,12 @@ func (f *Frame) onStack(fn *ssa.Function) bool {
 func fullName(fn *ssa.Function) string {
 	if fn.Pkg != nil {
 		if recv := fn.Signature.Recv(); recv != nil {
-			return fn.Pkg.Pkg.Path() + "." + strings.TrimPrefix(funcKey(fn), fn.Pkg.Pkg.Name()+".")
+			return fn.Pkg.Pkg.Path() + "." + strings.TrimPrefix(funcKey(fn), pkgID(fn.Pkg.Pkg)+".")
 		}
 		return fn.Pkg.Pkg.Path() + "." + fn.Name()
 	}
 	if fn.Object() != nil && fn.Object().Pkg() != nil {
-		return fn.Object().Pkg().Path() + "." + strings.TrimPrefix(funcKey(fn), fn.Object().Pkg().Name()+".")
+		return fn.Object().Pkg().Path() + "." + strings.TrimPrefix(funcKey(fn), pkgID(fn.Object().Pkg())+".")
 	}
 	return fn.Name()
 }
@@ -695,4 +703,155 @@ func (e *Engine) confinedEffects(fn *ssa.Function, cc *ssa.CallCommon, pf *Frame
 		}
 		addType(pt, arg)
 	}
+}
+
+// readsOf: heap components a function (and its static callees) may read. Used for `pure` contracts:
+// a pure call is a deterministic function of its arguments and of these components.
+func (e *Engine) readsOf(callee *ssa.Function, caller *Frame) *effects {
+	target := callee
+	tmap := TMap{}
+	if o := callee.Origin(); o != nil {
+		target = o
+		tps := o.TypeParams()
+		tas := callee.TypeArgs()
+		for i := 0; i < tps.Len() && i < len(tas); i++ {
+			tmap[tps.At(i)] = caller.subst(tas[i])
+		}
+	}
+	key := "reads|" + funcKey(target) + "|" + tmapKey(tmap)
+	if ef, ok := e.effMemo[key]; ok {
+		return ef
+	}
+	ef := &effects{comps: map[string]Sort{}}
+	seen := map[string]bool{}
+	var visit func(fn *ssa.Function, tm TMap)
+	visit = func(fn *ssa.Function, tm TMap) {
+		if ef.top {
+			return
+		}
+		k := funcKey(fn) + "|" + tmapKey(tm)
+		if seen[k] {
+			return
+		}
+		seen[k] = true
+		if len(fn.Blocks) == 0 || !e.inModule(fn) {
+			if e.externPure(fn) && !e.externConfined(fn) {
+				return
+			}
+			ef.top = true
+			return
+		}
+		pf := &Frame{ctx: caller.ctx, fn: fn, tmap: tm, vals: map[ssa.Value]Val{}}
+		ms := &modSet{comps: ef.comps, locals: map[*ssa.Alloc][][]int{}}
+		for _, b := range fn.Blocks {
+			for _, in := range b.Instrs {
+				switch x := in.(type) {
+				case *ssa.UnOp:
+					if x.Op == token.MUL {
+						pf.addStoreMods(x.X, ms)
+					}
+				case *ssa.Lookup:
+					if mt, ok := pf.subst(x.X.Type()).Underlying().(*types.Map); ok {
+						pf.addMapMods(mt, ms, true, true)
+					}
+				case *ssa.Range:
+					if mt, ok := pf.subst(x.X.Type()).Underlying().(*types.Map); ok {
+						pf.addMapMods(mt, ms, true, true)
+					}
+				case ssa.CallInstruction:
+					cc := x.Common()
+					if bi, ok := cc.Value.(*ssa.Builtin); ok {
+						if bi.Name() == "len" {
+							if mt, ok := pf.subst(cc.Args[0].Type()).Underlying().(*types.Map); ok {
+								pf.addMapMods(mt, ms, true, false)
+							}
+						}
+						if bi.Name() == "append" || bi.Name() == "copy" {
+							if st, ok := pf.subst(cc.Args[0].Type()).Underlying().(*types.Slice); ok {
+								pf.addComp(ms, pf.eName(st.Elem()), ArrS(SInt, ArrS(SInt, pf.sortOf(st.Elem()))))
+							}
+						}
+						continue
+					}
+					if cc.IsInvoke() {
+						if !e.invokeIsPure(cc) {
+							ef.top = true
+						}
+						continue
+					}
+					sc := cc.StaticCallee()
+					if sc == nil {
+						if mc, ok := cc.Value.(*ssa.MakeClosure); ok {
+							sc = mc.Fn.(*ssa.Function)
+						}
+					}
+					if sc == nil {
+						ef.top = true
+						continue
+					}
+					if _, hasModel := externModels[fullName(sc)]; hasModel {
+						continue
+					}
+					ntm := TMap{}
+					nt := sc
+					if o := sc.Origin(); o != nil {
+						nt = o
+						tps := o.TypeParams()
+						tas := sc.TypeArgs()
+						for i := 0; i < tps.Len() && i < len(tas); i++ {
+							ntm[tps.At(i)] = substType(tas[i], tm)
+						}
+					} else if sc.Parent() != nil {
+						ntm = tm
+					}
+					visit(nt, ntm)
+				}
+			}
+		}
+		if ms.top {
+			ef.top = true
+		}
+	}
+	visit(target, tmap)
+	e.effMemo[key] = ef
+	return ef
+}
+
+// pureCall: the result of a `pure` function is a function of its arguments and of what it may read.
+func (f *Frame) pureCall(st *State, r *Term, target *ssa.Function, tmap TMap, ct *Contract, args []Val, pos token.Pos) (Val, bool) {
+	sig := target.Signature
+	reads := f.ctx.eng.readsOf(target, f)
+	if reads.top {
+		return nil, false
+	}
+	cf := &Frame{ctx: f.ctx, fn: target, tmap: tmap, vals: map[ssa.Value]Val{}, parent: f}
+	var ts []*Term
+	for _, a := range args {
+		t, ok := a.(*Term)
+		if !ok {
+			return nil, false
+		}
+		ts = append(ts, t)
+	}
+	names := make([]string, 0, len(reads.comps))
+	for k := range reads.comps {
+		names = append(names, k)
+	}
+	sort.Strings(names)
+	for _, k := range names {
+		ts = append(ts, f.ctx.comp(st, k, reads.comps[k]))
+	}
+	var out TupleVal
+	for i := 0; i < sig.Results().Len(); i++ {
+		rt := cf.subst(sig.Results().At(i).Type())
+		v := f.ctx.uf("pure!"+funcKey(target)+"!"+itoa(i), cf.sortOf(rt), ts...)
+		v = f.ctx.define("pure", v)
+		f.assumeWf(st, v, rt)
+		out = append(out, v)
+	}
+	f.ctx.trusted["pure function "+funcKey(target)+": its result is a function of its arguments and of the heap components it can read (determinism of sequential Go code)"] = true
+	if len(out) == 1 {
+		return out[0], true
+	}
+	return out, true
 }
